@@ -261,6 +261,35 @@ func EIP712(acc chain.Account, c Cosmos, typedChainID uint64, legacyExt bool) (c
 	return b, nil
 }
 
+// EIP712Direct signs a SIGN_MODE_DIRECT Cosmos tx with an EIP-712 signature over the typed data the chain derives from
+// the protobuf sign document (the route the ethsecp256k1 public key falls back to when plain ECDSA verification fails).
+func EIP712Direct(acc chain.Account, c Cosmos) (client.TxBuilder, error) {
+	b := c.Builder()
+	mode := signing.SignMode_SIGN_MODE_DIRECT
+	sig := signing.SignatureV2{PubKey: acc.Priv.PubKey(), Data: &signing.SingleSignatureData{SignMode: mode}, Sequence: c.Seq}
+	if err := b.SetSignatures(sig); err != nil {
+		return nil, err
+	}
+	sd := authsigning.SignerData{ChainID: c.ChainID, AccountNumber: c.AccNum, Sequence: c.Seq, Address: acc.Addr.String(), PubKey: acc.Priv.PubKey()}
+	signBytes, err := TxConfig().SignModeHandler().GetSignBytes(mode, sd, b.GetTx())
+	if err != nil {
+		return nil, err
+	}
+	typed, err := eip712.GetEIP712BytesForMsg(signBytes)
+	if err != nil {
+		return nil, err
+	}
+	sigBz, err := acc.Priv.Sign(crypto.Keccak256(typed))
+	if err != nil {
+		return nil, err
+	}
+	sig.Data = &signing.SingleSignatureData{SignMode: mode, Signature: sigBz}
+	if err := b.SetSignatures(sig); err != nil {
+		return nil, err
+	}
+	return b, nil
+}
+
 var (
 	eipOnce sync.Once
 	eipCdc  codec.ProtoCodecMarshaler
